@@ -293,6 +293,17 @@ def run_one(case, tally):
         if not all(seen.get("short", [False])):
             findings.append({"clause": "inflight-delivered", "sig": "C15.inflight-truncated/%s" % be, "backend": be,
                              "detail": "request completing inside the grace period was not delivered in full: %r" % seen.get("short")})
+    if kind in ("inflight_short", "pipelined_behind_inflight", "h2_two_inflight"):
+        # "... lets requests in progress finish ..., then ... runs lifespan shutdown": these requests finish inside the grace period,
+        # so the lifespan application must not hear of the shutdown before the last of them has returned
+        ls = [e for e in ev if e[2] == "app" and e[3] == "recv" and e[4]["msg"].get("type") == "lifespan.shutdown"]
+        exits = [e for e in ev if e[2] == "app" and e[3] == "exit" and h.apps.scopes.get(e[4]["inst"], {}).get("path") in ("/short", "/short2")]
+        if ls and exits:
+            tally.clause("lifespan-after-drain")
+            if ls[0][0] < max(x[0] for x in exits):
+                findings.append({"clause": "inflight-delivered", "sig": "C15.lifespan-shutdown-before-drain/%s" % be, "backend": be,
+                                 "detail": "lifespan.shutdown was delivered (seq %d) while a request that went on to finish inside the grace period was "
+                                           "still in progress (it returned at seq %d)" % (ls[0][0], max(x[0] for x in exits))})
     if kind in ("h2_idle", "h2_open_stream"):
         tally.clause("h2-refused")
         for goaway, rst3, eof, hdr3 in seen.get("h2", []):
